@@ -158,9 +158,18 @@ class RefAC:
             return bytes([v[1], v[2]]) + bytes(5)
         return self.props.get(pid, b"\x00")
 
+    extra_in_replies = None      # optional (position, property id, value bytes) inserted into every 0xB1 reply
+
     def _props_frame(self, rid: int, ids: list[int], frame_type: int, msg_id: int) -> bytes:
+        ids = list(ids)
+        if self.extra_in_replies is not None and rid == 0xB1 and ids:
+            pos, xid, xval = self.extra_in_replies
+            ids.insert(min(pos, len(ids)), ("extra", xid, xval))
         body = bytearray([rid, len(ids)])
         for pid in ids:
+            if isinstance(pid, tuple):
+                body += bytes([pid[1] & 0xFF, pid[1] >> 8, 0x00, len(pid[2])]) + pid[2]
+                continue
             ok = self.supported_props is None or pid in self.supported_props
             val = self._prop_value_for_query(pid) if ok else b"\x00"
             body += bytes([pid & 0xFF, pid >> 8, 0x00 if ok else 0x11, len(val)]) + val
